@@ -39,7 +39,16 @@ RULE = ("pairs of documents x array modes {position, value} x AoH modes {positio
         "their section - before, between, after the entries that match: judged by the clauses with the matching entries only, "
         "(10) ONE Differ taken through 2-3 comparisons (right documents: identical copy / edited / unrelated, in any order), "
         "get_report() read 0-2 times after each: every report read is judged by the clauses for (left, right of that step); "
-        "a clause failing there and not on a fresh Differ's report for the same pair is a violation.  "
+        "a clause failing there and not on a fresh Differ's report for the same pair is a violation, "
+        "(11) pairs of documents whose mappings / sets have keys that are NOT text or integers - floats (1.5, 2.0, 0.75, -0.5, "
+        "10.25), timestamps, dates, as the library's loader yields them - at any depth, beside text / integer keys and, half of "
+        "the time, beside nested keys that spell the parts of such a key's text (1: {5: ...} next to 1.5; the date: {the time: ...} "
+        "next to a timestamp); identical / 1-3 edits (value replaced, entry or member removed, added, renamed to another such key, "
+        "reordered) / unrelated; two thirds under positional comparison, the rest under any mode mix.  Outside the Lean documents "
+        "(text and integer keys): judged on the real code alone by every DIRECT check below - in particular the entry's path, read "
+        "segment by segment as the path parser delivers it (a KEY segment names the one key / member written that way), must lead to "
+        "the entry's value in the document it speaks about; keys that are == but written differently (1 / true / 1.0) or written "
+        "alike (1.5 / '1.5') are not put into one pair.  "
         "DIRECT checks on the real report, independent of the model: every entry true of the two documents and every "
         "leaf covered (positional modes), clean <=> data-equal (all modes), every left/right index of a synchronisation "
         "accounted for exactly once, exit status 0 <=> clean.  Correspondence: the report as a sorted list of "
@@ -527,9 +536,9 @@ def leaves(x, pre=()):
 def plain_json(x):
     k = kind(x)
     if k == "set":
-        return {"k": "set", "m": list(x)}
+        return {"k": "set", "m": [xkey_json(m) for m in x]}
     if k == "map":
-        return {"k": "map", "e": [[kk, plain_json(v)] for kk, v in x.items()]}
+        return {"k": "map", "e": [[xkey_json(kk), plain_json(v)] for kk, v in x.items()]}
     if k == "seq":
         return {"k": "seq", "i": [plain_json(v) for v in x]}
     return codec.scalar_to_json(x)
@@ -570,7 +579,7 @@ def direct_checks(lj, rj, arr, aoh, rep, rules=None):
     empty) overrides them list by list and the positional clauses are judged wherever every list above the
     entry / leaf is compared by position."""
     out = []
-    lp, rp = codec.json_to_plain(lj), codec.json_to_plain(rj)
+    lp, rp = to_plain(lj), to_plain(rj)
     positional = (arr == "position" and aoh in ("position", "dpos")) or rules is not None
 
     def judged(segs):
@@ -594,9 +603,9 @@ def direct_checks(lj, rj, arr, aoh, rep, rules=None):
             except KeyError:
                 out.append(("untruthful:path", "%s entry at %s: the path does not exist in the document it speaks about" % (act, segs)))
                 continue
-            if act == "same" and not (codec.json_to_plain(lhs) == codec.json_to_plain(rhs)):
+            if act == "same" and not (to_plain(lhs) == to_plain(rhs)):
                 out.append(("untruthful:same", "SAME entry at %s with different values" % (segs,)))
-            if act == "change" and codec.json_to_plain(lhs) == codec.json_to_plain(rhs):
+            if act == "change" and to_plain(lhs) == to_plain(rhs):
                 out.append(("untruthful:change", "CHANGE entry at %s with equal values" % (segs,)))
         lcov = [segs for act, segs, _l, _r in rep if act in ("same", "change", "delete")]
         rcov = [segs for act, segs, _l, _r in rep if act in ("same", "change", "add")]
@@ -634,6 +643,332 @@ def void_clash(lp, rp):
     if kx == "seq":
         return any(void_clash(v, w) for v in lp for w in rp)
     return False
+
+
+# --------------------------------------------------------------------------- keys that are not strings or integers
+#
+# The Lean documents have text and integer keys only (`Key` of Model/Basic.lean, shared by every model).  A YAML
+# mapping key / set member may as well be a float, a timestamp, a date or a Boolean; the Differ names such a child
+# by the TEXT of the key (escape_path_section(str(key))), and that text holds symbols of the path notation (the `.`
+# of 1.5, the blank of a timestamp).  These documents are judged on the real code alone (layer 11).  In the case
+# JSON such a key is written {"f": "1.5"} / {"ts": "2021-03-04 05:06:07"} / {"d": "2021-03-04"} / {"b": true};
+# the key OBJECT is what the YAML loader of the library yields for that text (ScalarFloat, AnchoredTimeStamp,
+# AnchoredDate, bool), in the plain data of the oracle as well as in the ruamel documents.
+
+_XKEY_CACHE = {}
+
+
+def xkey_obj(k):
+    """the Python key object of a key of the case JSON"""
+    if not isinstance(k, dict):
+        return k
+    if "b" in k:
+        return bool(k["b"])
+    text = k.get("f") or k.get("ts") or k.get("d")
+    if text not in _XKEY_CACHE:
+        from yamlpath.common import Parsers
+        _XKEY_CACHE[text] = Parsers.get_yaml_editor().load("- %s\n" % text)[0]
+    return _XKEY_CACHE[text]
+
+
+def xkey_json(k):
+    """a key object -> its form in the case JSON (text and integer keys as they are)"""
+    import datetime
+    if isinstance(k, bool):
+        return {"b": bool(k)}
+    if isinstance(k, float):
+        return {"f": repr(float(k))}
+    if isinstance(k, datetime.datetime):
+        if type(k).__name__ == "AnchoredDate":
+            return {"d": str(k).split(" ")[0]}
+        return {"ts": str(k)}
+    return k
+
+
+def to_plain(j):
+    """codec.json_to_plain with the keys of the case JSON turned into their key objects"""
+    k = j["k"]
+    if k == "map":
+        return {xkey_obj(kk): to_plain(v) for kk, v in j["e"]}
+    if k == "seq":
+        return [to_plain(v) for v in j["i"]]
+    if k == "set":
+        return set(xkey_obj(m) for m in j["m"])
+    return codec.json_to_plain(j)
+
+
+def x_to_ruamel(j):
+    """codec.json_to_ruamel (no anchors) with key objects as the loader yields them"""
+    from ruamel.yaml.comments import CommentedMap, CommentedSeq, CommentedSet
+    k = j["k"]
+    if k == "map":
+        out = CommentedMap()
+        for kk, v in j["e"]:
+            out[xkey_obj(kk)] = x_to_ruamel(v)
+        return out
+    if k == "seq":
+        out = CommentedSeq()
+        for v in j["i"]:
+            out.append(x_to_ruamel(v))
+        return out
+    if k == "set":
+        out = CommentedSet()
+        for m in j["m"]:
+            out.add(xkey_obj(m))
+        return out
+    return codec.json_to_ruamel(j)
+
+
+def x_node_to_json(n):
+    """codec.node_to_json(anchors=False) that also writes keys which are no text / integer"""
+    if isinstance(n, (set, frozenset)) or type(n).__name__ == "CommentedSet":
+        return {"k": "set", "m": [xkey_json(m) for m in n]}
+    if isinstance(n, dict):
+        return {"k": "map", "e": [[xkey_json(kk), x_node_to_json(v)] for kk, v in n.items()]}
+    if isinstance(n, (list, tuple)):
+        return {"k": "seq", "i": [x_node_to_json(v) for v in n]}
+    return codec.scalar_to_json(n)
+
+
+XK_ODD = [{"f": "1.5"}, {"f": "2.0"}, {"f": "0.75"}, {"f": "-0.5"}, {"f": "10.25"}, {"f": "1.25"},
+          {"ts": "2021-03-04 05:06:07"}, {"ts": "2001-12-14 21:59:43.10"}, {"d": "2021-03-04"}]
+# no two keys of the pools are == (Python finds the entry of 1 under true and under 1.0, and the checks of this
+# module read == as "equal as data"): no Boolean keys beside 0 / 1, no 2 beside 2.0
+XK_PLAIN = ["a", "b", "ab", 1, 5, 10, -1, 0, 25, 75, "2021-03-04"]
+XK_SCALARS = [{"k": "str", "v": "a"}, {"k": "str", "v": "b"}, {"k": "str", "v": "ab"}, {"k": "int", "v": "0"},
+              {"k": "int", "v": "1"}, {"k": "int", "v": "5"}, {"k": "bool", "v": True}, {"k": "float", "m": "15", "e": -1},
+              {"k": "str", "v": "x y"}]
+
+
+def xkeys_distinct(keys):
+    """no two keys of one mapping (members of one set) are == or are written the same: the first is not a YAML
+    mapping (1 / 1.0 / true are one dict key), the second — `1.5` the float next to '1.5' the text — is the C06
+    side of finding C07-K1 (one path text for two children) and not what this layer is about"""
+    objs = [xkey_obj(k) for k in keys]
+    return len(set(objs)) == len(objs) and len(set(str(o) for o in objs)) == len(objs)
+
+
+def xdoc_ok(j):
+    if j["k"] == "map":
+        return xkeys_distinct([k for k, _v in j["e"]]) and all(xdoc_ok(v) for _k, v in j["e"])
+    if j["k"] == "set":
+        return xkeys_distinct(j["m"])
+    if j["k"] == "seq":
+        return all(xdoc_ok(v) for v in j["i"])
+    return True
+
+
+def has_xkey(j):
+    if j["k"] == "map":
+        return any(isinstance(k, dict) or has_xkey(v) for k, v in j["e"])
+    if j["k"] == "set":
+        return any(isinstance(m, dict) for m in j["m"])
+    if j["k"] == "seq":
+        return any(has_xkey(v) for v in j["i"])
+    return False
+
+
+def lookalike(rng, k):
+    """[key, node] spelling the first part of the text of the non-string key `k` as a key of its own, with the rest
+    below it: 1.5 -> 1: {5: …}; a timestamp -> its date: {its time: …} — the children a mis-split path would name"""
+    text = str(xkey_obj(k))
+    for sepc in (".", " "):
+        if sepc in text:
+            head, tail = text.split(sepc, 1)
+            def as_key(t):
+                try:
+                    return int(t) if str(int(t)) == t else t
+                except ValueError:
+                    return t
+            return [as_key(head), {"k": "map", "e": [[as_key(tail), dict(rng.choice(XK_SCALARS))]]}]
+    return None
+
+
+def rand_xdoc(rng, budget, top=True):
+    """a document whose mappings / sets have keys that are floats, timestamps, dates, Booleans (at any depth, next
+    to text and integer keys and, half of the time, next to the look-alike nested keys of `lookalike`)"""
+    r = rng.random()
+    if not top and (budget <= 1 or r < 0.3):
+        return dict(rng.choice(XK_SCALARS))
+    if r < 0.12 and not top:
+        return {"k": "seq", "i": [rand_xdoc(rng, max(1, (budget - 1) // 2), False) for _ in range(rng.randint(1, 3))]}
+    if r < 0.22:
+        return {"k": "set", "m": rng.sample(XK_ODD, rng.randint(1, 3)) + rng.sample(XK_PLAIN, rng.randint(0, 2))}
+    if r < 0.30 and top:
+        return {"k": "seq", "i": [rand_xdoc(rng, max(2, (budget - 1) // 2), False) for _ in range(rng.randint(1, 3))]}
+    n = rng.randint(1, min(4, max(1, budget - 1)))
+    ks = rng.sample(XK_ODD, min(n, rng.choice([1, 1, 2, 3]))) + rng.sample(XK_PLAIN, rng.choice([0, 0, 1, 2]))
+    es = [[k, rand_xdoc(rng, max(1, (budget - 1) // len(ks)), False)] for k in ks]
+    for k in list(ks):
+        if isinstance(k, dict) and rng.random() < 0.5:
+            la = lookalike(rng, k)
+            if la is not None:
+                es.append(la)
+    rng.shuffle(es)
+    return {"k": "map", "e": es}
+
+
+def xedit(rng, j):
+    """one edit somewhere in a copy of j: scalar replaced / entry or member removed, added, renamed to another
+    non-string key / entries reordered"""
+    j = json.loads(json.dumps(j))
+    cs = containers(j, [])
+    if not cs:
+        return dict(rng.choice(XK_SCALARS))
+    c = rng.choice(cs)
+    op = rng.random()
+    if c["k"] == "map" and c["e"]:
+        es = c["e"]
+        i = rng.randrange(len(es))
+        if op < 0.45:
+            es[i][1] = dict(rng.choice(XK_SCALARS)) if es[i][1]["k"] not in ("map", "seq", "set") or rng.random() < 0.3 \
+                else xedit(rng, es[i][1])
+        elif op < 0.6:
+            es.pop(i)
+        elif op < 0.8:
+            es.insert(rng.randint(0, len(es)), [rng.choice(XK_ODD + XK_PLAIN[:4]), rand_xdoc(rng, 2, False)])
+        elif op < 0.9:
+            es[i][0] = rng.choice(XK_ODD)
+        else:
+            rng.shuffle(es)
+    elif c["k"] == "set":
+        ms = c["m"]
+        if op < 0.5 or not ms:
+            ms.insert(rng.randint(0, len(ms)), rng.choice(XK_ODD + XK_PLAIN[:4]))
+        elif op < 0.8:
+            ms.pop(rng.randrange(len(ms)))
+        else:
+            rng.shuffle(ms)
+    elif c["k"] == "seq":
+        xs = c["i"]
+        if op < 0.4 and xs:
+            i = rng.randrange(len(xs))
+            xs[i] = xedit(rng, xs[i]) if xs[i]["k"] in ("map", "seq", "set") else dict(rng.choice(XK_SCALARS))
+        elif op < 0.6 and xs:
+            xs.pop(rng.randrange(len(xs)))
+        elif op < 0.8:
+            xs.insert(rng.randint(0, len(xs)), rand_xdoc(rng, 3, False))
+        else:
+            rng.shuffle(xs)
+    else:
+        c["e"].append([rng.choice(XK_ODD), dict(rng.choice(XK_SCALARS))])
+    return j
+
+
+def rand_xkey_case(rng):
+    """(left, right, arrays, aoh): a pair of documents with non-string keys; two thirds under positional comparison
+    (the clauses about the entry paths), the rest under any mode mix (clean <=> data-equal)"""
+    for _ in range(200):
+        a = rand_xdoc(rng, rng.randint(3, 10))
+        r = rng.random()
+        if r < 0.15:
+            b = json.loads(json.dumps(a))
+        elif r < 0.85:
+            b = a
+            for _n in range(rng.randint(1, 3)):
+                b = xedit(rng, b)
+        else:
+            b = rand_xdoc(rng, rng.randint(2, 8))
+        if xdoc_ok(a) and xdoc_ok(b) and (has_xkey(a) or has_xkey(b)):
+            break
+    else:
+        a, b = XKEY_CORPUS[0]
+    if rng.random() < 0.5:
+        a, b = b, a
+    arr, aoh = rng.choice(MODES[:2]) if rng.random() < 0.66 else rng.choice(MODES)
+    return (a, b, arr, aoh)
+
+
+XKEY_CORPUS = [
+    # [left, right]: a float key changed / same / only on one side, beside the nested integer keys that spell its text
+    ({"k": "map", "e": [["r", {"k": "map", "e": [[{"f": "1.5"}, {"k": "str", "v": "a"}], [{"f": "2.0"}, {"k": "str", "v": "b"}],
+                                                [1, {"k": "map", "e": [[5, {"k": "str", "v": "ab"}]]}]]}]]},
+     {"k": "map", "e": [["r", {"k": "map", "e": [[{"f": "1.5"}, {"k": "str", "v": "b"}], [{"f": "2.0"}, {"k": "str", "v": "b"}],
+                                                [1, {"k": "map", "e": [[5, {"k": "str", "v": "ab"}]]}]]}]]}),
+    ({"k": "map", "e": [[{"f": "0.5"}, {"k": "int", "v": "1"}]]}, {"k": "map", "e": [[{"f": "0.75"}, {"k": "int", "v": "1"}]]}),
+    ({"k": "map", "e": [[{"ts": "2021-03-04 05:06:07"}, {"k": "str", "v": "a"}], [{"d": "2021-03-04"}, {"k": "str", "v": "a"}]]},
+     {"k": "map", "e": [[{"ts": "2021-03-04 05:06:07"}, {"k": "str", "v": "b"}], [{"d": "2021-03-04"}, {"k": "str", "v": "a"}]]}),
+    ({"k": "set", "m": [{"f": "1.5"}, "a"]}, {"k": "set", "m": [{"f": "2.0"}, "a"]}),
+    ({"k": "seq", "i": [{"k": "map", "e": [[{"b": False}, {"k": "map", "e": [[{"f": "-0.5"}, {"k": "int", "v": "0"}]]}]]}]},
+     {"k": "seq", "i": [{"k": "map", "e": [[{"b": False}, {"k": "map", "e": [[{"f": "-0.5"}, {"k": "int", "v": "1"}]]}]]}]}),
+    ({"k": "map", "e": [[{"b": True}, {"k": "str", "v": "a"}], [{"b": False}, {"k": "str", "v": "a"}]]},
+     {"k": "map", "e": [[{"b": True}, {"k": "str", "v": "a"}], [{"b": False}, {"k": "str", "v": "b"}]]}),
+]
+
+
+def impl_xreport(lj, rj, arr, aoh, limit_s=10.0):
+    """impl_report for documents with non-string keys: {"rep": …} | {"crash": …} | {"timeout": 1}"""
+    from yamlpath.differ import Differ, DifferConfig
+    log = core.quiet_logger()
+    old = signal.signal(signal.SIGVTALRM, _alarm)
+    signal.setitimer(signal.ITIMER_VIRTUAL, limit_s)
+    try:
+        cfg = DifferConfig(log, SimpleNamespace(arrays=arr, aoh=aoh, config=None))
+        d = Differ(cfg, log, x_to_ruamel(lj))
+        d.compare_to(x_to_ruamel(rj))
+        rep = []
+        for e in d.get_report():
+            act = e.action.name.lower()
+            lhs = None if act == "add" else x_node_to_json(e._lhs)
+            rhs = None if act == "delete" else x_node_to_json(e._rhs)
+            rep.append([act, seg_canon(e.path), lhs, rhs])
+        rep.sort(key=lambda x: json.dumps(x, sort_keys=True))
+        return {"rep": rep}
+    except Timeout:
+        return {"timeout": 1}
+    except Exception as e:  # noqa
+        return {"crash": type(e).__name__, "site": core.crash_site(e), "cls": core.exc_class(e)}
+    finally:
+        signal.setitimer(signal.ITIMER_VIRTUAL, 0)
+        signal.signal(signal.SIGVTALRM, old)
+
+
+def xkey_cases(cases):
+    """cases: (lj, rj, arr, aoh) with non-string keys.  Real code only: every clause of `direct_checks` on the real
+    report — the entry's path, read segment by segment (a KEY segment names the ONE key / member written that way),
+    must lead to the entry's left / right value in the left / right document; SAME equal, CHANGE different; every
+    leaf covered; clean <=> data-equal."""
+    stats = {"n": 0, "hist": {}, "nontrivial": [], "out_of_model": 0}
+    viol = []
+
+    def count(k, n=1):
+        stats["hist"][k] = stats["hist"].get(k, 0) + n
+
+    for (lj, rj, arr, aoh) in cases:
+        stats["n"] += 1
+        count("gen:non-string-keys")
+        sz = size(lj) + size(rj)
+        case = {"xkeys": True, "l": lj, "r": rj, "arr": arr, "aoh": aoh}
+        im = impl_xreport(lj, rj, arr, aoh)
+        if "timeout" in im:
+            im = impl_xreport(lj, rj, arr, aoh, limit_s=120.0)
+        if "timeout" in im:
+            viol.append((sz, "timeout", "compare_to did not return within 120 s (non-string keys)", case))
+            continue
+        if "crash" in im:
+            viol.append((sz, "crash:%s@%s" % (im["crash"], im["site"]),
+                         "compare_to raised %s on documents with non-string keys (arrays=%s, aoh=%s)" % (im["crash"], arr, aoh), case))
+            continue
+        rep = im["rep"]
+        lp, rp = to_plain(lj), to_plain(rj)
+        positional = arr == "position" and aoh in ("position", "dpos")
+        count("xkeys:positional" if positional else "xkeys:synchronised")
+        for e in rep:
+            count("xkeys:action:" + e[0])
+            if any(s[0] == "s" and any(c in s[1] for c in ". :") for s in e[1]):
+                count("xkeys:entry-below-a-key-with-symbols")
+        for (name, what) in direct_checks(lj, rj, arr, aoh, rep):
+            sig = name
+            if name in ("uncovered-leaf", "clean-but-different") and void_clash(lp, rp):
+                sig = "void-clash:" + name
+            elif name in ("clean-but-different", "equal-but-reported") and identity_trouble(arr, aoh, lp, rp):
+                sig = "identity-key:" + name
+            viol.append((sz, sig, what + " (non-string keys; arrays=%s, aoh=%s)" % (arr, aoh), dict(case, impl=rep)))
+        if rep:
+            stats["nontrivial"].append(json.dumps([lj, rj, arr, aoh], sort_keys=True))
+    import hashlib
+    stats["nontrivial"] = [hashlib.blake2b(s_.encode(), digest_size=8).hexdigest() for s_ in stats["nontrivial"]]
+    return stats, per_sig(viol), [], []
 
 
 # --------------------------------------------------------------------------- workers
@@ -1532,6 +1867,8 @@ def _job(job):
         return ("diff", rule_cases(payload))
     if kind_ == "reuse":
         return ("diff", reuse_cases(payload))
+    if kind_ == "xkeys":
+        return ("diff", xkey_cases(payload))
     return ("cli", cli_cases(payload))
 
 
@@ -1627,6 +1964,11 @@ def build_jobs(chk, scale=1):
     rng5 = random.Random(chk.seed * 17 + 11)
     ru = [rand_reuse_case(rng5) for _ in range((2500 if tier == "quick" else 30000) * scale)]
     jobs += [("reuse", c) for c in core.chunked(ru, 32)]
+    # mappings / sets whose keys are floats, timestamps, dates, Booleans (outside the Lean documents): real code only
+    rng6 = random.Random(chk.seed * 19 + 13)
+    xk = [(l, r, a, h) for (l, r) in XKEY_CORPUS for (a, h) in MODES[:2] + MODES[5:6]]
+    xk += [rand_xkey_case(rng6) for _ in range((4000 if tier == "quick" else 50000) * scale)]
+    jobs += [("xkeys", c) for c in core.chunked(xk, 64)]
     return jobs
 
 
@@ -1683,6 +2025,8 @@ def run(chk: core.Check):
             res = [("cli", cli_cases([(c["l"], c["r"], c["arr"], c["aoh"], "replay", extra)]))]
         elif c.get("reuse"):
             res = [("diff", reuse_cases([(c["l"], c["rs"], c["arr"], c["aoh"], c["reads"])]))]
+        elif c.get("xkeys"):
+            res = [("diff", xkey_cases([(c["l"], c["r"], c["arr"], c["aoh"])]))]
         elif "rules" in c or "keys" in c:
             res = [("diff", rule_cases([c]))]
         else:
@@ -1707,7 +2051,7 @@ def widen(chk: core.Check):
     saved = chk.seed
     chk.seed = chk2_seed
     try:
-        jobs = [j for j in build_jobs(chk, scale=10) if j[0] in ("diff", "rules", "reuse")]
+        jobs = [j for j in build_jobs(chk, scale=10) if j[0] in ("diff", "rules", "reuse", "xkeys")]
     finally:
         chk.seed = saved
     chk._c06_v, chk._c06_d = [], []
